@@ -4,13 +4,24 @@ every capacity, every valid state, every history).
 Tie 1 (translator): translate/ring2coq.py regenerates coq/gen/RingGen.v from
 dasp_ring_buffer/src/lib.rs on every run (one Gallina definition per method of Fixed, Bounded,
 DrainBounded); Ring/RingGenEquiv.v proves every generated definition equal to the hand model's
-on all inputs, so the refinement theorems are theorems about the regenerated model.
+on all inputs, so the refinement theorems are theorems about the regenerated model.  The same translation
+with every usize `+` read as a checked 64-bit addition (coq/gen/RingGenCk.v, modulus M abstract) is proved equal
+to the unbounded one in every valid state over at most M/2 elements (c06_gen_no_index_overflow): no index
+addition of the source can overflow, for any argument.
 Tie 2 (correspondence): the model's executable definitions (Ring/RingRun.v, evaluated by coqc)
 against dasp_ring_buffer on the same operation sequences from arbitrary valid (and invalid) raw states.
 When the translator rejects the source or the equivalence no longer compiles (DESIGN 5.1/5.3) the
 correspondence is the search for a failing input: hand model vs crate, then the regenerated model
-(Ring/RingGenRun.v) vs crate and vs hand model; a failing input gives VIOLATION with a replay file,
+(Ring/RingGenRun.v) vs crate and vs hand model, and the 64-bit reading vs the unbounded reading on a scaled-down
+machine (Ring/RingGenCkRun.v: modulus 2*capacity, all valid states of capacities 1..3); a failing input gives VIOLATION with a replay file,
 none gives a VIOLATION ending no-failing-input-found that names the lemma / the translator error.
+
+Harmless rewrites of the source (decided and tested): the equivalence proofs split on every test and close the
+leaves with lia/congruence after bringing commuted sums and differently written indices to one spelling, so
+operands of `+` swapped, `a >= b` written `b <= a`, a temporary more or less, comments and layout still PASS.
+A rewrite that is equal only by an arithmetic identity the proofs do not know (`(first + i % n) % n` for
+`(first + i) % n` -- which is NOT harmless at 64 bits, defect F9) is reported as a VIOLATION ending
+no-failing-input-found that names the lemma: the hand model / proof has to be looked at by a person.
 
 TESTING ONLY: DASP_RING_RS=<file> makes the translator read that file instead of /repo's lib.rs.  The
 harness is still built against /repo, so only the translator side sees the change -- unless
@@ -24,7 +35,7 @@ import ring2coq as T  # noqa: E402
 PROP = "C06"
 META = dict(
     technique="Coq refinement proof (model -> ideal bounded queue / delay line) + model regenerated from the source by a translator and proved equal to the hand model + coqc-evaluated model vs crate correspondence",
-    text="Machine-checked (Coq 8.16.1) refinement of a model of Bounded/Fixed, written after the source with the same index arithmetic, to an ideal capacity-bounded queue and an ideal delay line: every operation from every valid (start,len)/first state of every capacity, hence every history; no UB, no unprescribed panic. Two ties to the source. (1) translate/ring2coq.py, a strict translator for the Rust subset the method bodies use, regenerates coq/gen/RingGen.v from dasp_ring_buffer/src/lib.rs on every run (every method of Fixed, Bounded, DrainBounded; anything outside its grammar, a new/missing method, a non-identity Slice impl is an error), and Coq proves each generated definition equal to the hand model's on all inputs (c06_gen_bounded_agrees, c06_gen_fixed_agrees), so the refinement theorems are about the regenerated model. (2) The model's executable definitions are run inside coqc on the same operation sequences as the real crate (every raw state of small capacities x every operation, random histories) and all observations compared exactly; this also is the search for a failing input when (1) breaks.",
+    text="Machine-checked (Coq 8.16.1) refinement of a model of Bounded/Fixed, written after the source with the same index arithmetic, to an ideal capacity-bounded queue and an ideal delay line: every operation from every valid (start,len)/first state of every capacity, hence every history; no UB, no unprescribed panic. Two ties to the source. (1) translate/ring2coq.py, a strict translator for the Rust subset the method bodies use, regenerates coq/gen/RingGen.v from dasp_ring_buffer/src/lib.rs on every run (every method of Fixed, Bounded, DrainBounded; anything outside its grammar, a new/missing method, a non-identity Slice impl is an error), and Coq proves each generated definition equal to the hand model's on all inputs (c06_gen_bounded_agrees, c06_gen_fixed_agrees), so the refinement theorems are about the regenerated model; the same translation with usize `+` read as checked 64-bit addition (coq/gen/RingGenCk.v) is proved to agree with it in every valid state for every argument (c06_gen_no_index_overflow: no index addition of the source can overflow). (2) The model's executable definitions are run inside coqc on the same operation sequences as the real crate (every raw state of small capacities x every operation, random histories) and all observations compared exactly; this also is the search for a failing input when (1) breaks.",
     note="Trusted: Coq kernel; translate/ring2coq.py and the vocabulary Ring/RingPrim.v it translates into (Rust slices as lists, &mut [T] as index ranges, &mut T as an index, usize as nat, mem::replace/ptr::read/write as list updates) validated only through the correspondence; the caller-side glue of Ring/RingGenGlue.v; harness + python generators. Axioms: none.",
     design="6/C06")
 HEADER = "From Dasp Require Import Ring.RingRun."
@@ -295,7 +306,15 @@ def proof_phase(rep, terr):
     ok, log = F.coq_prop_build(PROP)
     info["coq_ok"] = ok
     if not ok:
-        bl = broken_lemma(log)
+        # name the FIRST thing that broke along the translator tie (make -j reports whatever failed first)
+        bl = None
+        for tgt in ("gen/RingGen.vo", "gen/RingGenCk.vo", "theories/Ring/RingGenEquiv.vo", "theories/Ring/RingGenCkEquiv.vo"):
+            ok2, log2 = F.coq_make(tgt)
+            if not ok2:
+                bl = broken_lemma(log2)
+                break
+        if bl is None:
+            bl = broken_lemma(log)
         f = bl.get("file") or ""
         if "gen/RingGen.v" in f:
             stage, what = "generated_model", "the model regenerated from the source does not type-check in Coq (the body of a method no longer has the representation its declared Rust type needs)"
@@ -451,7 +470,7 @@ def main(rep, tier, seed):
     rng = F.Rng(seed)
     t0 = time.time()
     names, regenerated, terr = regenerate()
-    tinfo = {"source": RING_SRC, "generated_file": "coq/gen/RingGen.v", "rewritten": bool(regenerated),
+    tinfo = {"source": RING_SRC, "generated_files": ["coq/gen/RingGen.v", "coq/gen/RingGenCk.v"], "rewritten": list(regenerated or []),
              "definitions": len(names or []), "translate_s": round(time.time() - t0, 2), "error": terr}
     if terr is None:
         # self-test of "never silently skipped": single-token edits of the method bodies must be rejected or change the output
@@ -557,7 +576,7 @@ def finish(rep, info, n, nontriv, dist, samples, bad=()):
     th = info.get("theorems", [])
     cov = {
         "obligations": max(1, len(th)), "discharged": len(th) if info.get("coq_ok") else 0,
-        "checker_cmd": "translate/ring2coq.py /repo/dasp_ring_buffer/src/lib.rs > coq/gen/RingGen.v; make -f Makefile.coq props/C06.vo (coqc 8.16.1, full .vo) + Print Assumptions audit",
+        "checker_cmd": "translate/ring2coq.py /repo/dasp_ring_buffer/src/lib.rs > coq/gen/RingGen.v, coq/gen/RingGenCk.v; make -f Makefile.coq props/C06.vo (coqc 8.16.1, full .vo) + Print Assumptions audit",
         "trusted_base": F.TRUSTED_COMMON + ["axioms: none (every theorem of props/C06.v is closed under the global context)",
                                            "translate/ring2coq.py (Rust method bodies -> Gallina: evaluation order, control flow, state threading) and the vocabulary Ring/RingPrim.v it translates into; validated through the correspondence of the (proved equal) hand model",
                                            "modelled, not verified: Rust slices as lists, &mut [T] as an (offset, length) range and &mut T as an index into self.data, mem::replace/ptr::read/ptr::write as list updates; the caller-side glue of Ring/RingGenGlue.v (store through a returned reference, visiting an IterMut, draining); usize as nat in the refinement theorems and in the generated model, with the 64-bit reading of every index addition proved free of overflow in valid states for indices up to usize::MAX (c06_index_arith_no_overflow), slice lengths assumed <= 2^63 (true of every non-zero-sized element type)"],
